@@ -6,6 +6,8 @@ register (`Model/Meta.lean`, driver op "meta_hist").  The model never computes a
 carries the *observed* frame (column names, dtype identity tokens, dtype kinds, emptiness) and, for derived frames,
 the observed source registers of the `__finalize__` call.  Compared after every step: result / exception class,
 the raw register (names, units, display units, display formats, in order) and whether a validated state is remembered.
+Tables a history derives from (copies, selections, re-wraps) stay alive as siblings, each with its own info in the
+model; after every operation on the current table all recent siblings are consulted too (model and oracles).
 Function level: `unit_from_dtype`, `check_dtype`, `_update_columns`, the column part of `_combine_tables`.
 
 Oracle (no model involved): the C04 statement evaluated on the real table after every step — one unit per dataframe
@@ -223,27 +225,59 @@ class Hooks:
 
 # --------------------------------------------------------------------------- one history
 
+class TableState:
+    """one live table of a history (the start table, a re-wrap, a derived frame): its frame and what the
+    oracles remember about it.  Tables a history derives from stay alive as siblings."""
+
+    def __init__(self, df, slot, assigned=None):
+        self.df = df
+        self.slot = slot            # index of this table's info in the model driver
+        self.tainted = False        # a special unit was involved in a unit-setter call since the last full validation
+        self.expect_default = {}    # column name -> True: created without explicit unit, check at next success
+        self.assigned = dict(assigned or {})   # column name -> the unit explicitly given for that column
+        self.snap = None            # plain DataFrame copy of the frame at the last successful consultation
+
+
+def _delegate(name):
+    return property(lambda self: getattr(self.cur, name), lambda self, v: setattr(self.cur, name, v))
+
+
 class Ctx:
     def __init__(self, out, prop, rng, case):
         self.out, self.prop, self.rng, self.case = out, prop, rng, case
         self.obs = Observer(out)
         self.steps, self.expect = [], []
         self.fn_ops = []            # function-level model ops gathered on the way: (op, expected, what)
-        self.df = None
-        self.tainted = False        # a special unit was involved in a unit-setter call since the last full validation
-        self.expect_default = {}    # column name -> True: created without explicit unit, check at next success
-        self.assigned = {}          # column name -> the unit explicitly given for that column (its "own unit")
+        self.tables = []            # all live tables, in creation order (slot == index)
+        self.cur = None             # the table the history is currently operating on
         self.failed = False
-        self.snap = None            # plain DataFrame copy of the frame at the last successful consultation
+
+    tainted = _delegate("tainted")
+    expect_default = _delegate("expect_default")
+    assigned = _delegate("assigned")
+    snap = _delegate("snap")
+
+    @property
+    def df(self):
+        return self.cur.df
+
+    @df.setter
+    def df(self, new_df):
+        """a new table object came into being (construction, re-wrap, derived frame): it becomes the current
+        one, the table it came from stays alive as a sibling with its own register"""
+        ts = TableState(new_df, len(self.tables), assigned=self.cur.assigned if self.cur is not None else None)
+        self.tables.append(ts)
+        self.cur = ts
 
     @property
     def info(self):
         return self.df._table_data
 
-    def send(self, k, res, frame=None, info=None, **args):
+    def send(self, k, res, frame=None, info=None, t=None, **args):
         """append one model step with what the implementation answered"""
         info = info if info is not None else self.info
-        step = {"k": k, "frame": frame if frame is not None else self.obs.frame(self.df)}
+        step = {"k": k, "t": self.cur.slot if t is None else t,
+                "frame": frame if frame is not None else self.obs.frame(self.df)}
         step.update(args)
         self.steps.append(step)
         self.expect.append({"res": res, "reg": reg_snapshot(info), "last": info._last_dataframe_state is not None})
@@ -487,6 +521,7 @@ def op_rewrap(ctx):
         st = rng.random() < 0.5
         kw["strict_types"] = st
     old_info = ctx.info
+    old_slot = ctx.cur.slot
     try:
         t2 = quiet(Table, ctx.df, **kw)
         res = None
@@ -498,7 +533,7 @@ def op_rewrap(ctx):
         ctx.expect_default = {}
         if us is not None and not ctx.df.empty:
             ctx.assigned = dict(zip(list(ctx.df.columns), us))
-        ctx.send("rewrap", None, units=us, strict=st)
+        ctx.send("rewrap", None, t=old_slot, units=us, strict=st)
     else:
         ctx.send("rewrap", res, info=old_info, units=us, strict=st)
         return f"rewrap({kw}) -> {res['exc']}"
@@ -750,6 +785,7 @@ def derived(ctx, fn, desc, keeps_units=True):
     import pandas as pd
     out = ctx.out
     old_info = ctx.info
+    old_slot = ctx.cur.slot
     with Hooks(ctx.obs) as hk:
         try:
             r = quiet(fn, ctx.df)
@@ -796,7 +832,7 @@ def derived(ctx, fn, desc, keeps_units=True):
         ctx.assigned = {}
     ctx.expect_default = {c[0]: True for c in rec["frame"]["cols"] if not any(c[0] == e[0] for s in rec["srcs"] for e in s)}
     # the register as it is now belongs to the finalize-time frame; the frame may have changed since (set_axis)
-    ctx.send("finalize", None, frame=rec["frame"], srcs=rec["srcs"], strict=rec["strict"])
+    ctx.send("finalize", None, t=old_slot, frame=rec["frame"], srcs=rec["srcs"], strict=rec["strict"])
     return desc
 
 
@@ -967,6 +1003,22 @@ def probe(ctx, writers):
     ctx.assigned = {k: v for k, v in ctx.assigned.items() if k in cur_names}
     ctx.send("peek", None)
     t = Table(df)
+    names = list(df.columns)
+    lookups = []
+
+    def do_lookups():
+        for n in list(dict.fromkeys(names)) + ([ctx.rng.choice(NAMES)] if ctx.rng.random() < 0.3 else []):
+            try:
+                u = quiet(lambda: t[n].unit)
+            except Exception as e:
+                u = exc_name(e)
+            lookups.append((n, u))
+            ctx.send("get", u, name=n)
+
+    lookups_first = ctx.rng.random() < 0.25      # the first consultation after an operation may be a column lookup
+    if lookups_first:
+        out.count("probe:lookups_first")
+        do_lookups()
     try:
         units = list(quiet(lambda: t.units))
         ures = units
@@ -978,15 +1030,12 @@ def probe(ctx, writers):
         ctx.snap = pd.DataFrame(df).copy()       # plain copy of the frame as last consulted successfully
     if units is not None and info._last_dataframe_state is not state_before:
         ctx.tainted = False                      # a full validation just succeeded
-    names = list(df.columns)
-    lookups = []
-    for n in list(dict.fromkeys(names)) + ([ctx.rng.choice(NAMES)] if ctx.rng.random() < 0.3 else []):
-        try:
-            u = quiet(lambda: t[n].unit)
-        except Exception as e:
-            u = exc_name(e)
-        lookups.append((n, u))
-        ctx.send("get", u, name=n)
+    if not lookups_first:
+        do_lookups()
+    elif units is not None:
+        # lookups made before the unit list may have hit a table that the lookup itself refused; redo after success
+        lookups.clear()
+        do_lookups()
     try:
         it = [[c.name, c.unit] for c in quiet(lambda: list(t))]
     except Exception as e:
@@ -1149,6 +1198,21 @@ def _fail(ctx, what, observed, expected, key):
         ctx.out.fail(what, dict(ctx.case), observed, expected, key=key)
 
 
+def probe_siblings(ctx, limit=3):
+    """consult the other live tables of the history (the ones the current table was copied / selected / re-wrapped
+    from): an operation on one table must leave every other table readable-and-consistent or refused, with its own
+    units.  Same consultations go to the model, where every table has its own register."""
+    cur = ctx.cur
+    others = [ts for ts in ctx.tables if ts is not cur][-limit:]
+    try:
+        for ts in others:
+            ctx.cur = ts
+            ctx.out.count("sibling_consulted")
+            probe(ctx, writers=(ctx.rng.random() < 0.25))
+    finally:
+        ctx.cur = cur
+
+
 # --------------------------------------------------------------------------- history drivers
 
 def run_history(out, prop, seed, stream, index, depth, weights=None, plan=None, script=None):
@@ -1191,6 +1255,7 @@ def run_history(out, prop, seed, stream, index, depth, weights=None, plan=None, 
             else:
                 case["ops"].append(d)
                 probe(ctx, writers=(rng.random() < 0.4))
+                probe_siblings(ctx)
     except Abort as a:
         out.count("cut:" + str(a))
         case["ops"].append("CUT: " + str(a))
